@@ -371,6 +371,18 @@ def make_spec(seed, i, j):
     spec = gen_problem(rng, base)
     spec['cfg'] = cfg
     n = spec['n']
+    if base == 'proj' and rng.random() < 0.35:
+        # start exactly on the boundary of a half-space whose normal has no zero component, with a small radius: the projected
+        # +coordinate steps are then linearly dependent and the initialisation has to repair them (deterministically, by sign flips)
+        # (dyadic data, so that the dependence is exact: the rank test uses an absolute tolerance of 1e-18)
+        x0 = np.round(unhx(spec['x0']) * 4.0) / 4.0
+        x0[1] = -x0[0]
+        a = np.zeros(n); a[0] = a[1] = 1.0
+        spec['x0'] = hx(x0)
+        spec['proj'] = [['halfspace', hx(a), hx(0.0)]] if rng.random() < 0.5 else [['ball', hx(x0.copy()), hx(64.0)], ['halfspace', hx(a), hx(0.0)]]
+        spec['rhobeg'] = hx(float(rng.choice([2.0 ** -10, 2.0 ** -6])))
+        spec['lo'] = spec['hi'] = None
+        spec['scaling'] = False
     heavy = base in ('proj', 'reg')
     params = {}
     spec['maxfun'] = int(rng.choice([20, 40, 80])) if not heavy else int(rng.choice([8, 12, 16]))
@@ -401,6 +413,13 @@ def make_spec(seed, i, j):
     if rng.random() < 0.3:
         params['logging.save_diagnostic_info'] = True
         params['logging.save_poisedness'] = bool(rng.random() < 0.5)
+    if rng.random() < 0.2:
+        # entries set to None are legal and leave the default in place; the dictionary must come back as it was
+        params[str(rng.choice(['general.rounding_error_constant', 'tr_radius.eta1', 'slow.thresh_for_slow']))] = None
+    if rng.random() < 0.25 and not heavy:
+        # a short slow-progress history: state left behind by an earlier call in the same process would change the exit
+        params['slow.max_slow_iters'] = int(rng.integers(2, 5))
+        params['slow.thresh_for_slow'] = float(rng.choice([0.5, 2.0]))
     if rng.random() < 0.2:
         spec['x0_int'] = True                    # integer x0 array (solve converts with astype)
         spec['x0'] = hx(np.round(unhx(spec['x0'])))
@@ -441,6 +460,43 @@ def _result_key(soln, exc):
                 xmin_eval_num=_bits(soln.xmin_eval_num), jacmin_eval_nums=_bits(soln.jacmin_eval_nums),
                 diag=None if di is None else (tuple(di.columns), len(di), _bits(di['rho'].to_numpy(dtype=float)),
                                               _bits(di['delta'].to_numpy(dtype=float)), _bits(di['fk'].to_numpy(dtype=float))))
+
+
+def _sign_flips_suffice(P, spec):
+    """replays the two deterministic passes of Controller.initialise_coordinate_directions (projected +steps, then -steps for
+    the rank-deficient rows) with the tree's own dykstra/qr_rank; True if they reach full rank, False if not, None if unknown"""
+    try:
+        from dfols.util import dykstra, qr_rank, pbox
+        up = P.user_params or {}
+        mi, dt, mr = up.get('dykstra.max_iters', 100), up.get('dykstra.d_tol', 1e-10), up.get('matrix_rank.r_tol', 1e-18)
+        projs = list(P.projections)
+        n = len(P.x0)
+        if P.lo is not None or P.hi is not None:
+            lo = P.lo if P.lo is not None else -1e20 * np.ones(n)
+            hi = P.hi if P.hi is not None else 1e20 * np.ones(n)
+            projs.append(lambda w: pbox(w, lo, hi))
+        xb = dykstra(projs, np.array(P.x0, dtype=float), max_iter=mi, tol=dt)
+        step = min(1, P.rhobeg_eff)
+        D = np.zeros((n, n))
+        for k in range(n):
+            ek = np.zeros(n); ek[k] = 1
+            D[k, :] = dykstra(projs, xb + np.dot(ek, step), max_iter=mi, tol=dt) - xb
+        rank, diag = qr_rank(D, tol=mr)
+        k = 0
+        while rank != n and k < n:
+            if diag[k] < mr:
+                ek = np.zeros(n); ek[k] = 1
+                dk = D[k, :].copy()
+                D[k, :] = dykstra(projs, xb - np.dot(ek, step), max_iter=mi, tol=dt) - xb
+                rank2, _ = qr_rank(D, tol=mr)
+                if rank2 <= rank:
+                    D[k, :] = dk
+                rank = rank2
+            k += 1
+        rank, _ = qr_rank(D, tol=mr)
+        return bool(rank == n)
+    except Exception:
+        return None
 
 
 def check_case(spec):
@@ -495,6 +551,11 @@ def check_case(spec):
             in_init = first < npt * ns
             if spec.get('proj') and in_init:
                 sig = 'C19:rng_in_projection_init'
+                # the known finding (F35) is the case in which flipping the sign of the deficient coordinate steps does not
+                # restore full rank, so that the routine has to draw random directions; when the deterministic passes
+                # suffice the generator must not influence the points
+                if _sign_flips_suffice(build(spec), spec) is True:
+                    sig = 'C19:rng_in_projection_init:repairable_without_rng'
             else:
                 sig = 'C19:sequence_differs:' + ('global_rng' if other['label'] == 'seed_b' else 'repeated_call')
             xa = ref['rec'].xs[first] if first < len(ref['xs']) else None
